@@ -266,3 +266,44 @@ prop(
     assumptions=["atomics behave as their sequential lib contracts; holders <= capacity follows from the per-call unit accounting by a counting argument stated in DESIGN.md"],
     technique="contract-based deductive verification of the named mechanisms (govc over go/ssa + SMT), ghost ownership counters",
 )
+
+prop(
+    "C14",
+    level="other",
+    design_ref="DESIGN.md section 3, C14",
+    groups=[(["./pipeline/doif"], r"^(\(\*logicalNode\)\.Check|NewLogicalNode|\(\*fieldOpNode\)\.Check)$"),
+            (["./pipeline"], r"^(\(\*processor\)\.(isMatch|isMatchOr|isMatchAnd)|\(\*MatchCondition\)\.valueExists)$")],
+    canaries=[("./pipeline", "replay/C14/zz_replay_c14_test.go", "TestVerifReplayC14")],
+    claim=(
+        "Proved for all operand lists, value lists and events, with each leaf test an uninterpreted deterministic predicate: logical nodes compute exactly or = some operand holds, and = all operands hold, not = negation of its operand "
+        "(independent of short-circuiting and operand order; NewLogicalNode guarantees an operand exists); legacy match_fields: valueExists is 'some listed value equals / is a prefix of the value', "
+        "isMatchAnd / isMatchOr are exactly 'all / some conditions hold' where a condition holds iff its field exists and its regexp matches (regexp condition) or a listed value matches (list condition) - the documented meaning - "
+        "and isMatch dispatches on the mode and applies match_invert; fieldOpNode.Check's contains / prefix / suffix operators return true iff some configured value satisfies the operator on the event data (no value skipped, any order)."
+    ),
+    undecided=[
+        "case-insensitive operators (Unicode case mapping has no SMT theory) and the equal operator's size-bucket map (Go map contents are not modelled)",
+        "that the minValLen / maxValLen fast paths agree with the un-shortcut semantics (needs the real meaning of contains/prefix/suffix; only stated for data not shorter than minValLen)",
+        "length / timestamp / type-check nodes and the construction of the tree from configuration maps (map[string]any walking)",
+    ],
+    assumptions=["Node.Check, regexp matching, insane-json Dig/AsString and bytes.Contains/HasPrefix/HasSuffix are deterministic functions of their arguments (uninterpreted)"],
+)
+
+prop(
+    "C16",
+    level="other",
+    design_ref="DESIGN.md section 3, C16",
+    groups=[(["./plugin/action/throttle"], r"^(rebuildBuckets|\(\*simpleBuckets\)\.(rebuild\$1|add|get|reset)|\(\*inMemoryLimiter\)\.isAllowed)$")],
+    claim=(
+        "In-memory throttle with simple buckets, for all event times and clock positions (bucket ids are arbitrary integers): rebuildBuckets keeps maxID == minID + count - 1, never moves the window backwards, "
+        "resets exactly min(clock advance, count) buckets exactly when the clock moved past the newest bucket, and maps every event time into the retained window (past and future times count against the newest bucket); "
+        "the ring shift - through the real append(b[n:], b[:n]...) in both its in-place and reallocating cases - moves bucket i+n to i and zeroes the freed tail, all other counters unchanged; "
+        "add / get / reset touch exactly one counter; isAllowed with a negative limit passes everything, otherwise adds first (1 or the event size, to the re-mapped bucket and the selected slot) and passes iff that bucket is within the selected limit."
+    ),
+    undecided=[
+        "the sequence-level statement (per key and bucket, passed <= limit over a whole history) follows from these per-call contracts by induction over calls (DESIGN.md), not machine-checked",
+        "limit distributions (getDistrData stealing, parseLimitDistribution rounding of shares) and distributed buckets",
+        "rule selection and the per-key limiter map (Go maps / limiter cache): keys never sharing a budget is not decided",
+        "concurrent limit updates; redis backend",
+    ],
+    assumptions=["timeToBucketID is an arbitrary function of the time (uninterpreted)", "the dynamic type behind the buckets interface honours the simpleBuckets contracts"],
+)
